@@ -293,3 +293,35 @@ func Parallel(n int, f func(i int)) {
 	}
 	wg.Wait()
 }
+
+// ParallelW is Parallel with a worker index (0..workers-1) for worker-local
+// state such as compiled-expression caches.
+func ParallelW(n int, f func(worker, i int)) int {
+	workers := runtime.GOMAXPROCS(0)
+	if workers > n {
+		workers = n
+	}
+	if workers < 1 {
+		workers = 1
+	}
+	var next atomic.Int64
+	var wg sync.WaitGroup
+	for w := 0; w < workers; w++ {
+		wg.Add(1)
+		go func(w int) {
+			defer wg.Done()
+			for {
+				i := int(next.Add(1)) - 1
+				if i >= n {
+					return
+				}
+				f(w, i)
+			}
+		}(w)
+	}
+	wg.Wait()
+	return workers
+}
+
+// Workers is the number of workers ParallelW uses at most.
+func Workers() int { return runtime.GOMAXPROCS(0) }
